@@ -12,20 +12,20 @@ use std::time::{Duration, Instant};
 
 pub fn sim_families(prop: &str) -> Vec<&'static str> {
     match prop {
-        "C01" => vec!["life", "dag", "prefill", "redirect", "maxfails", "timelimit", "mn"],
+        "C01" => vec!["life", "dag", "prefill", "redirect", "maxfails", "timelimit", "mn", "journal"],
         "C02" => vec!["life", "dag", "reject", "open", "prefill", "redirect", "mn", "misc"],
-        "C03" => vec!["dag", "open"],
+        "C03" => vec!["dag", "open", "journal"],
         "C04" => vec!["prefill", "reject", "life"],
         "C05" => vec!["prefill", "redirect", "reject", "mn"],
         "C06" => vec!["prefill", "redirect", "crashlimit"],
         "C07" => vec!["crashlimit", "mn", "redirect", "maxfails", "misc"],
-        "C08" => vec!["life", "prefill", "redirect", "mn", "dag", "misc"],
+        "C08" => vec!["life", "prefill", "redirect", "mn", "dag", "misc", "journal"],
         "C09" => vec![
             "life", "dag", "prefill", "redirect", "reject", "mn", "maxfails", "open", "crashlimit", "timelimit",
             "misc", // ("wait" with its three overlapping clients only in C13's quick tier and in thorough)
         ],
-        "C13" => vec!["open", "life", "maxfails", "wait"],
-        "C14" => vec!["maxfails"],
+        "C13" => vec!["open", "life", "maxfails", "wait", "journal"],
+        "C14" => vec!["maxfails", "journal"],
         _ => vec![],
     }
 }
